@@ -65,7 +65,7 @@ func nnsGenOp(t *rapid.T) nnsOp {
 	}
 	op.Kind = Weighted(t, "kind", kw)
 	op.Sel.Mode = Weighted(t, "sel", []int{30, 42, 22, 6})
-	op.Sel.K = rapid.IntRange(0, 11).Draw(t, "k")
+	op.Sel.K = Uniform(t, "k", 60)
 	op.Sel.Tld = Weighted(t, "tld", []int{40, 35, 15, 10})
 	op.Sel.Depth = 2 + Weighted(t, "depth", []int{50, 35, 15})
 	for i := range op.Sel.L {
@@ -73,8 +73,8 @@ func nnsGenOp(t *rapid.T) nnsOp {
 	}
 	op.Sub = Weighted(t, "sub", []int{50, 14, 10, 10, 10, 6})
 	op.Acc = Weighted(t, "acc", []int{30, 25, 15, 10, 8, 8, 4})
-	op.Sig = Weighted(t, "sig", []int{62, 8, 5, 5, 4, 3, 3, 4, 2, 2, 2})
-	op.Exp = Weighted(t, "exp", []int{30, 25, 15, 15, 10, 5})
+	op.Sig = Weighted(t, "sig", []int{70, 6, 4, 4, 3, 3, 2, 3, 2, 2, 1})
+	op.Exp = Weighted(t, "exp", []int{34, 12, 20, 16, 4, 14})
 	op.Typ = Weighted(t, "typ", []int{40, 22, 18, 14, 6})
 	op.Data = rapid.IntRange(0, 23).Draw(t, "data")
 	op.Id = Weighted(t, "id", []int{50, 25, 15, 10})
@@ -82,11 +82,11 @@ func nnsGenOp(t *rapid.T) nnsOp {
 		op.GasCut = rapid.IntRange(5, 95).Draw(t, "gascut")
 	}
 	op.Flush = Weighted(t, "flush", []int{45, 55})
-	op.Dt = Weighted(t, "dt", []int{50, 14, 7, 10, 10, 9})
-	op.DtSel = rapid.IntRange(0, 11).Draw(t, "dtsel")
-	mx := 3
+	op.Dt = Weighted(t, "dt", []int{74, 8, 3, 5, 5, 5})
+	op.DtSel = Weighted(t, "dtsel", []int{60, 25, 15})
+	mx := 2
 	if Prop() == "C11" {
-		mx = 16
+		mx = 10
 	}
 	if Chance(t, "matrix?", mx) {
 		op.Mx = 1 + rapid.IntRange(0, 11).Draw(t, "mx")
@@ -125,6 +125,7 @@ type nnsEngine struct {
 	touched     map[string]bool   // names ever mentioned (read sweep universe)
 	notifOwn    map[string][]byte // fold of every Transfer notification: name → owner
 	authChanged map[string]bool   // names whose owner/admin/liveness changed in this block
+	lastNow     int64             // chain time after the engine's last own block
 	pendingMx   int
 	blockNo     int
 	mxSeq       int
@@ -199,6 +200,8 @@ func (e *nnsEngine) run() {
 			soa: nnsSOA{email: "ops@nspcc.io", refresh: 3600, retry: 600, expire: 10 * 365 * 24 * 3600, ttl: 3600, serial: t0, serialAlt: -1}}
 	}
 	e.calibrateTLDs()
+	e.lastNow = int64(w.Now())
+	e.r.Sweep = e.apiSweep
 	e.r.Tracef("world n=%d committee=%d-of-%d sigFaults=%v gasCuts=%v deepSub=%v dupSet=%v maxPerBlock=%d shortTLD=%ds",
 		n, n/2+1, n, e.sigFaults, e.gasCuts, e.deepSub, e.dupSet, e.maxBlock, shortLife)
 
@@ -335,6 +338,105 @@ func (e *nnsEngine) buildChain(op nnsOp, base string, now int64) []*nnsTx {
 	return out
 }
 
+// apiSweep is the engine's complete read-API view of the world as sorted
+// "nns.method(args)=value" lines (Run.Sweep; C16 compares it right before and
+// right after an accepted upgrade). The blocks an upgrade inserts advance the
+// clock by a few milliseconds, so everything that depends on a name whose
+// expiration lies within 12 ms after the engine's last own block is left out
+// (the same set before and after: it is taken relative to that block, not to
+// the moving chain time).
+func (e *nnsEngine) apiSweep() []string {
+	m := e.m
+	unstable := func(x string) bool {
+		for s := x; s != ""; s = nnsParent(s) {
+			if n := m.get(s); n != nil && n.exp > e.lastNow && n.exp <= e.lastNow+12 {
+				return true
+			}
+		}
+		return false
+	}
+	anyUnstable := false
+	for _, nm := range m.sortedNames() {
+		if unstable(nm) {
+			anyUnstable = true
+		}
+	}
+	set := map[string]bool{}
+	for _, x := range e.universe() {
+		set[x] = true
+	}
+	for _, tld := range e.tlds {
+		for _, l := range nnsLabelPool {
+			set[l+"."+tld] = true
+		}
+	}
+	var names []string
+	for x := range set {
+		names = append(names, x)
+	}
+	sort.Strings(names)
+	type line struct {
+		label string
+		rd    *nnsRead
+	}
+	var lines []line
+	q := &nnsReads{e: e}
+	add := func(label, method string, args ...any) {
+		lines = append(lines, line{label, q.add(method, args...)})
+	}
+	for _, mth := range []string{"totalSupply", "getPrice", "roots", "tokens", "version", "symbol", "decimals"} {
+		add("nns."+mth+"()", mth)
+	}
+	accs := append(append([]nnsActor{}, e.actors...), e.noPay, nnsActor{name: "stranger", hash: e.strang.GetScriptHash().BytesBE()})
+	for _, a := range accs {
+		u, _ := util.Uint160DecodeBytesBE(a.hash)
+		add("nns.balanceOf("+a.name+")", "balanceOf", u)
+		add("nns.tokensOf("+a.name+")", "tokensOf", u)
+	}
+	for _, tld := range e.tlds {
+		if !unstable(tld) {
+			add("nns.isAvailable("+tld+")", "isAvailable", tld)
+		}
+	}
+	types := []int64{nnsTypA, nnsTypCNAME, nnsTypSOA, nnsTypTXT, nnsTypAAAA}
+	for _, x := range names {
+		if unstable(x) {
+			continue
+		}
+		add("nns.isAvailable("+x+")", "isAvailable", x)
+		add("nns.ownerOf("+x+")", "ownerOf", []byte(x))
+		add("nns.properties("+x+")", "properties", []byte(x))
+		add("nns.getAllRecords("+x+")", "getAllRecords", x)
+		for _, ty := range types {
+			add(fmt.Sprintf("nns.getRecords(%s,%s)", x, nnsTypName(ty)), "getRecords", x, ty)
+			if !anyUnstable { // a chain may lead through any name
+				add(fmt.Sprintf("nns.resolve(%s,%s)", x, nnsTypName(ty)), "resolve", x, ty)
+			}
+		}
+	}
+	var fs []line
+	if !anyUnstable {
+		for _, l := range nnsLabelPool {
+			rd := &nnsRead{Method: "resolve", Args: []any{l}}
+			q.fs = append(q.fs, rd)
+			fs = append(fs, line{"nnsresolver.resolve(" + l + ")", rd})
+		}
+	}
+	q.run()
+	var out []string
+	for _, ln := range append(lines, fs...) {
+		var sb strings.Builder
+		if ln.rd.Item == nil {
+			sb.WriteString("FAULT")
+		} else {
+			itemRepr(&sb, ln.rd.Item, 0)
+		}
+		out = append(out, ln.label+"="+sb.String())
+	}
+	sort.Strings(out)
+	return out
+}
+
 // signerOf returns the signer of an account, if it can sign at all.
 func (e *nnsEngine) signerOf(h []byte) (Signer, bool) {
 	for _, a := range e.actors {
@@ -427,6 +529,18 @@ func (e *nnsEngine) target(op nnsOp, now int64) string {
 				s.Mode = 2 // the drawn path has no enclosing name
 			}
 		}
+		if s.Mode == 2 && s.K%6 != 5 {
+			// a child of a name that can have children right now
+			var parents []string
+			for _, nm := range reg {
+				if n := e.m.names[nm]; n.level < 4 && e.m.ownAlive(n, now) && e.m.chainAlive(nm, now) {
+					parents = append(parents, nm)
+				}
+			}
+			if len(parents) > 0 {
+				return nnsLabelPool[s.L[0]] + "." + parents[s.K/6%len(parents)]
+			}
+		}
 		return e.resolveSel(s)
 	}
 	if s.Mode == 0 && s.K%3 != 0 || op.Kind == nnsOpChain || op.Kind == nnsOpFill {
@@ -438,8 +552,9 @@ func (e *nnsEngine) target(op nnsOp, now int64) string {
 			s.Mode = 1 // these act on registered names only
 		}
 	}
-	if s.Mode == 1 && s.K%5 != 4 {
-		// mostly names that are running right now
+	if (s.Mode == 1 || s.Mode == 2) && s.K%6 != 5 {
+		// mostly names that are running right now (or, for record operations,
+		// sub-names of such)
 		var alive []string
 		for _, nm := range reg {
 			if e.m.ownAlive(e.m.names[nm], now) && e.m.chainAlive(nm, now) {
@@ -447,7 +562,11 @@ func (e *nnsEngine) target(op nnsOp, now int64) string {
 			}
 		}
 		if len(alive) > 0 {
-			return alive[s.K%len(alive)]
+			base := alive[s.K/6%len(alive)]
+			if s.Mode == 2 {
+				return nnsLabelPool[s.L[0]] + "." + base
+			}
+			return base
 		}
 	}
 	return e.resolveSel(s)
@@ -1668,7 +1787,7 @@ func (e *nnsEngine) predictRecord(c *nnsCall, now int64) *nnsVerdict {
 				for j, d := range l {
 					if int64(j) != c.id && d == c.data {
 						// "an ordered list of … distinct values"
-						x, v.rule, v.kf, v.why = mustRefuse, "C12/duplicate-value-accepted", "setrecord-duplicate", "value present at another index"
+						x, v.rule, v.why = mustRefuse, "C12/duplicate-value-accepted", "value present at another index"
 					}
 				}
 			}
@@ -1746,7 +1865,17 @@ func nnsSameStrings(a, b []string) bool {
 func (e *nnsEngine) block(pending []*nnsTx, dt uint64) {
 	r, w, m := e.r, e.w, e.m
 	prev := int64(w.Now())
-	now := prev + int64(dt)
+	txs := make([]*transaction.Transaction, len(pending))
+	for i, bt := range pending {
+		txs[i] = bt.tx
+	}
+	aers := w.AddBlock(txs, dt)
+	r.AddBlock(len(txs), dt)
+	e.blockNo++
+	// the time the block really got: hooks of other checks (C16 upgrades) may
+	// have put blocks of their own in front of it
+	now := int64(w.Now())
+	e.lastNow = now
 	hot := map[string]bool{}
 	flipped := 0
 	for _, nm := range m.sortedNames() {
@@ -1758,13 +1887,6 @@ func (e *nnsEngine) block(pending []*nnsTx, dt uint64) {
 			}
 		}
 	}
-	txs := make([]*transaction.Transaction, len(pending))
-	for i, bt := range pending {
-		txs[i] = bt.tx
-	}
-	aers := w.AddBlock(txs, dt)
-	r.AddBlock(len(txs), dt)
-	e.blockNo++
 	if len(pending) > 1 {
 		r.Inject("sched.pack")
 		r.Fired("sched.pack")
@@ -2130,9 +2252,8 @@ func (e *nnsEngine) settle(t int64) {
 			set := map[string]bool{nm: true}
 			for _, rs := range n.vars {
 				for rn := range rs {
-					// only names getAllRecords can be asked about (see the deep
-					// sub-name finding) and that still belong to this token
-					if m.token(rn, t) == n && nnsLevel(rn) <= n.level+1 {
+					// only names that still belong to this token
+					if m.token(rn, t) == n {
 						set[rn] = true
 					}
 				}
@@ -2309,15 +2430,7 @@ func (e *nnsEngine) sweep(now int64, hot map[string]bool, full bool) {
 		nr.own = q.add("ownerOf", []byte(x))
 		nr.prop = q.add("properties", []byte(x))
 		tok := m.token(x, t)
-		// getRecords/getAllRecords of names two or more labels below their
-		// enclosing registration are asked only in the final sweep: they are
-		// refused (finding "getrecords-deep-subname") and would otherwise end every
-		// history that needs such records (registration conflicts) right away;
-		// `resolve` covers them after every block.
-		deep := tok != nil && nnsLevel(x) >= tok.level+2 && !full
-		if !deep {
-			nr.all = q.add("getAllRecords", x)
-		}
+		nr.all = q.add("getAllRecords", x)
 		types := map[int64]bool{rot: true}
 		if tok != nil {
 			for _, rs := range tok.vars {
@@ -2331,9 +2444,7 @@ func (e *nnsEngine) sweep(now int64, hot map[string]bool, full bool) {
 		}
 		for _, ty := range []int64{nnsTypA, nnsTypCNAME, nnsTypSOA, nnsTypTXT, nnsTypAAAA} {
 			if types[ty] {
-				if !deep {
-					nr.gr[ty] = q.add("getRecords", x, ty)
-				}
+				nr.gr[ty] = q.add("getRecords", x, ty)
 				if ty != nnsTypSOA {
 					nr.rs[ty] = q.add("resolve", x, ty)
 				}
@@ -2565,9 +2676,6 @@ func (e *nnsEngine) checkRecords(nr *nnsNameReads, t int64) {
 	r, m := e.r, e.m
 	x := nr.x
 	tok := m.token(x, t)
-	if nr.all == nil {
-		return // deferred to the final sweep
-	}
 	if tok == nil {
 		// "records become unreachable when the name expires": refusal or nothing
 		if nr.all.Item != nil && len(ItemArr(nr.all.Item)) > 0 {
@@ -2582,10 +2690,6 @@ func (e *nnsEngine) checkRecords(nr *nnsNameReads, t int64) {
 		return
 	}
 	chainDead := !m.chainAlive(tok.name, t)
-	kf := ""
-	if nnsLevel(x) >= tok.level+2 {
-		kf = "getrecords-deep-subname"
-	}
 	var expected []map[int64][]string
 	for _, rs := range tok.vars {
 		expected = append(expected, nnsExpectedRecs(tok, rs, x, tok.soa.serial))
@@ -2603,7 +2707,7 @@ func (e *nnsEngine) checkRecords(nr *nnsNameReads, t int64) {
 		// DON'T CARE: reads below an expired ancestor may refuse; a name that has
 		// no records at all may be answered by a refusal instead of an empty list
 		if !chainDead && anyRecs {
-			r.Violation("C12/records-mismatch", kf, "getAllRecords(%s) refused (%s); it belongs to %s which holds %s", x, nr.all.Fault, tok.name, nnsRecsStr(expected[0]))
+			r.Violation("C12/records-mismatch", "", "getAllRecords(%s) refused (%s); it belongs to %s which holds %s", x, nr.all.Fault, tok.name, nnsRecsStr(expected[0]))
 		}
 	} else {
 		obs := nnsParseAll(nr.all.Item, x)
@@ -2639,7 +2743,7 @@ func (e *nnsEngine) checkRecords(nr *nnsNameReads, t int64) {
 				}
 			}
 			if !chainDead && wanted {
-				r.Violation("C12/records-mismatch", kf, "getRecords(%s, %s) refused (%s); model %q (held by %s)", x, nnsTypName(ty), rd.Fault, expected[0][ty], tok.name)
+				r.Violation("C12/records-mismatch", "", "getRecords(%s, %s) refused (%s); model %q (held by %s)", x, nnsTypName(ty), rd.Fault, expected[0][ty], tok.name)
 			}
 			continue
 		}
